@@ -14,6 +14,7 @@ import random
 
 from .. import structs
 from ..common import Run
+from . import _family as F
 from ..structcorr import Case, build_items, report_unexplained, run_items
 
 CT = {"int8": ctypes.c_int8, "uint8": ctypes.c_uint8, "int16": ctypes.c_int16, "uint16": ctypes.c_uint16, "int32": ctypes.c_int32,
@@ -147,8 +148,13 @@ def check(run: Run) -> None:
                 cases.append(Case(f"struct S {{ uint8 a; }}; struct first {{ {tgt} *p; uint8 k; }};", align=align, pointer=pw1, compiled=rng.random() < 0.5,
                                   history=[("set_pointer", pw2), ("load", f"struct main {{ uint8 k; {tgt} *p; uint16 t; {tgt} *q[2]; }};")]))
 
+    # mixed alignment modes on one cstruct object (helper type in one mode, `main` in the other): only the agreement of the size notions is
+    # judged for these (the reference layouts below assume one mode throughout)
+    cases += F.mixed_mode_cases(rng, static_only=True)
+
     items, failures, n_ct, n_ref, n_sizes = [], 0, 0, 0, 0
     explained: set = set()
+    pending_mixed = []
     for c in cases:
         try:
             cs = c.load()
@@ -164,7 +170,8 @@ def check(run: Run) -> None:
         items += its
         # ---- oracle ----
         problems = []
-        ref = c_layout_ref(T, c.align)
+        mixed = F.is_mixed(c)
+        ref = None if mixed else c_layout_ref(T, c.align)
         from dissect.cstruct.types import Union
 
         if ref is not None:
@@ -176,7 +183,7 @@ def check(run: Run) -> None:
                 problems.append({"what": "size", "observed": T.size, "expected": ref[1]})
             if (T.alignment or 0) != ref[2]:
                 problems.append({"what": "alignment", "observed": T.alignment, "expected": ref[2]})
-        ct = to_ctypes(T, c.align) if (cs.pointer.size == 8) else None
+        ct = to_ctypes(T, c.align) if (cs.pointer.size == 8 and not mixed) else None
         if ct is not None and not issubclass(T, Union) or (ct is not None and issubclass(T, Union)):
             n_ct += 1
             if ctypes.sizeof(ct) != T.size and len(T.__fields__) > 0:
@@ -211,6 +218,15 @@ def check(run: Run) -> None:
                 problems.append({"what": "sizeof(main) in an expression", "observed": sz, "expected": size})
         except Exception as e:  # noqa: BLE001
             problems.append({"what": "sizeof(main)", "observed": repr(e), "expected": size})
+        if problems and mixed and F.misaligned_embedded(T) and all(p["what"] in ("bytes dumped vs len(T)", "bytes consumed vs len(T)") or (p["what"] == "parsing len(T) bytes" and p["observed"].startswith("EOFError")) for p in problems):
+            # recorded finding (see C01): an aligned structure at an unaligned offset inside a packed one pads its tail on the ABSOLUTE stream
+            # position, in its reader and its writer: the dump is longer than the declared size, a parse consumes more or less than it, an array
+            # of such structures needs more input than len(T).  Only when reader and writer do what the model of the current code does.
+            failures += 1
+            for it in its:
+                explained.add(id(it))
+            pending_mixed.append((its, {**c.describe(), "ops": [{"op": "layout+parse+dump", "data": data.hex(), "problems": problems}]}))
+            continue
         if problems:
             failures += 1
             for it in its:
@@ -219,6 +235,9 @@ def check(run: Run) -> None:
             run.report(f"C04/{comp_sig}", {**c.describe(), "ops": [{"op": "layout+parse+dump", "data": data.hex(), "problems": problems}]})
 
     mism = run_items(run, items)
+    bad_ids = {id(m) for m in mism}
+    for its_, rep in pending_mixed:
+        run.report("C04/bytes" if any(id(x) in bad_ids for x in its_) else "C04/aligned-structure-at-unaligned-offset-in-packed-structure", rep)
     report_unexplained(run, mism, explained, "corr_layout (Model.Layout.type_layout / Reader / Writer vs the loaded class)")
     if not ok and not failures and not mism:
         pf = run.proof_failure
